@@ -28,6 +28,7 @@ import Mathlib.Algebra.Field.Basic
 import Mathlib.Algebra.CharZero.Defs
 import Mathlib.Algebra.Order.Ring.Rat
 import Mathlib.Data.Fintype.Basic
+import Mathlib.Algebra.BigOperators.Fin
 
 namespace Atomman.C12
 open Atomman.Gen
@@ -431,6 +432,52 @@ theorem scale_invariant (pi I : F) (s : Setup F) (μ : Fin 6 → Mode F) (c : Fi
     field_simp
   · rw [hk]; simp only [scaleMode]; field_simp
 end scale
+
+section order
+variable {F : Type} [Field F] [CharZero F]
+
+theorem sum6_eq_finset (f : Fin 6 → F) : sum6 f = ∑ a, f a := by
+  simp only [sum6, Fin.sum_univ_six]
+
+theorem sum6_perm (σ : Equiv.Perm (Fin 6)) (f : Fin 6 → F) : (sum6 fun a => f (σ a)) = sum6 f := by
+  rw [sum6_eq_finset, sum6_eq_finset]
+  exact Equiv.sum_comp σ f
+
+theorem updn_perm (σ : Equiv.Perm (Fin 6)) (hσ : ∀ a, (σ a).val % 2 = a.val % 2) (a : Fin 6) :
+    (updn (σ a) : F) = updn a := by
+  simp only [updn, hσ a]
+
+/-- **independence of the order of the eigen-solver output**: listing the three conjugate pairs in another order
+    (any permutation of the six modes that keeps even positions even, i.e. keeps the `+` member of each pair on a
+    `+` slot of `updn`) changes neither the fields nor `K_tensor`. -/
+theorem pair_order_invariant (σ : Equiv.Perm (Fin 6)) (hσ : ∀ a, (σ a).val % 2 = a.val % 2)
+    (pi I : F) (s : Setup F) (μ : Fin 6 → Mode F) (k lnη : Fin 6 → F) (x : Vec F) :
+    (∀ i, dispAt pi I s (fun a => μ (σ a)) (fun a => k (σ a)) (fun a => lnη (σ a)) i = dispAt pi I s μ k lnη i)
+    ∧ (∀ i j, strainAt pi I s (fun a => μ (σ a)) (fun a => k (σ a)) x i j = strainAt pi I s μ k x i j)
+    ∧ (∀ i j, stressAt pi I s (fun a => μ (σ a)) (fun a => k (σ a)) x i j = stressAt pi I s μ k x i j)
+    ∧ ∀ i j, kTensor I (fun a => μ (σ a)) (fun a => k (σ a)) i j = kTensor I μ k i j := by
+  have hu := updn_perm (F := F) σ hσ
+  refine ⟨fun i => ?_, fun i j => ?_, fun i j => ?_, fun i j => ?_⟩
+  · have := sum6_perm σ (fun b => dispCoef pi I s μ k b i * lnη b)
+    simp only [dispAt]
+    rw [← this]
+    simp only [dispCoef, kLb, hu]
+  · have := sum6_perm σ (fun b => strainCoef pi I s μ k b i j * (((1 : ℕ) : F) / eta s (μ b) x))
+    simp only [strainAt]
+    rw [← this]
+    simp only [strainCoef, kLb, hu]
+  · have := sum6_perm σ (fun b => stressCoef pi I s μ k b i j * (((1 : ℕ) : F) / eta s (μ b) x))
+    simp only [stressAt]
+    rw [← this]
+    simp only [stressCoef, kLb, hu]
+  · have := sum6_perm σ (fun b => updn b * k b * (μ b).L i * (μ b).L j)
+    simp only [kTensor]
+    rw [← this]
+    simp only [hu]
+
+/-- the swap of the first two pairs `(0 1 2 3 4 5) ↦ (2 3 0 1 4 5)` satisfies the hypothesis. -/
+example : ∀ a : Fin 6, (((Equiv.swap (0 : Fin 6) 2).trans (Equiv.swap 1 3)) a).val % 2 = a.val % 2 := by decide
+end order
 
 /-! ### isotropic closed form, continued: symmetry, 1/r, Burgers closure, energy-coefficient tensor -/
 section iso2
